@@ -16,19 +16,20 @@ import (
 
 // propCfg describes how one property is explored.
 type propCfg struct {
-	Engine       simkit.Engine
-	EngineName   string
-	Level        string // evidence level
-	QuickRuns    int
-	ThoroughRuns int
-	QuickCapS    int // wall-clock cap (only ever truncates the run set)
-	ThoroughCapS int
-	Race         bool // workers are built with -race (checkptr, race detector)
-	RunsPerProc  int  // >0: a worker process executes at most this many runs (fresh-process semantics)
-	GoMaxProcs   string // GOMAXPROCS of the workers ("" = 2)
-	Rule         string
-	Components   map[string][]string
-	Assumptions  []string
+	Engine        simkit.Engine
+	EngineName    string
+	Level         string // evidence level
+	QuickRuns     int
+	ThoroughRuns  int
+	QuickCapS     int // wall-clock cap (only ever truncates the run set)
+	ThoroughCapS  int
+	Race          bool   // workers are built with -race (checkptr, race detector)
+	RunsPerProc   int    // >0: a worker process executes at most this many runs (fresh-process semantics)
+	GoMaxProcs    string // GOMAXPROCS of the workers ("" = 2)
+	RacePhaseRuns int    // >0 (non-race checks): additionally execute runs [0,n) under the -race build (checkptr)
+	Rule          string
+	Components    map[string][]string
+	Assumptions   []string
 }
 
 var registry = map[string]*propCfg{}
@@ -100,7 +101,7 @@ func init() {
 		Assumptions: []string{"oracle: the same history on an unfolder without key cache", "eviction order itself is not asserted (not part of the property)"},
 	}
 	registry["C14"] = &propCfg{
-		Engine: abandon.Engine{}, EngineName: "abandon", Level: "exploration",
+		Engine: abandon.Engine{}, EngineName: "abandon", Level: "exploration", RacePhaseRuns: 40000,
 		QuickRuns: 300000, ThoroughRuns: 6000000, QuickCapS: 60, ThoroughCapS: 900,
 		Rule: "one run = one (well-formed stream, target type) pair - the stream is the fold of a catalogue value of the same or another type, or a generated stream; the target any catalogue type incl. an unsupported one - abandoned after k events for EVERY k (24 sampled + complete if the stream has >40 events), with announced lengths of still-open containers inflated to {2^16,2^20,2^31-1,2^31,2^40,2^62,2^63-1} in half of the cases; then Reset, SetTarget and a compatible probe document; evaluations = (stream,target,k) triples; distinct by (target, delivered prefix, announcements, probe type); all are non-trivial (a crash point or a complete mismatching document)",
 		Components: map[string][]string{
